@@ -19,7 +19,7 @@ use crate::{
     parsers::{parse_prometheus, prom_families},
 };
 
-const RULE: &str = "a case = an allowlist of 0-5 entries written as plain addresses or CIDR blocks inside 127.0.0.0/8 (single hosts, nested and overlapping blocks, /0, /8../32) plus IPv6 entries, a real listener on 127.0.0.1, and 3-10 probes; each probe binds a client socket to a generated 127.x.y.z source address (inside a block, on its first/last address, one before / one after it, or random), optionally preceded by a fault (garbage bytes, a half-open connection left open, a partial request reset with SO_LINGER 0, a burst of 6 concurrent scrapers), and requests /metrics, /, /health or an arbitrary path. Oracle: the harness's own CIDR arithmetic decides allowed/denied; denied => 403 with an empty body; allowed => 200 whose body parses under the strict exposition parser and carries the canary counter at its current value, /health => OK; every documented-syntax entry is accepted by the builder; a well-formed request after any fault is answered within the deadline. Non-trivial = a probe from a block edge (first/last/one-off address), or a request issued while a faulty connection is still open. Distinct = distinct decoded cases.";
+const RULE: &str = "a case = an allowlist of 0-5 entries written as plain addresses or CIDR blocks inside 127.0.0.0/8 (single hosts, nested and overlapping blocks, /0, /8../32) plus IPv6 entries, a real listener on 127.0.0.1, and 3-10 probes; each probe binds a client socket to a generated 127.x.y.z source address (inside a block, on its first/last address, one before / one after it, or random), optionally preceded by a fault (garbage bytes, a half-open connection left open, a partial request reset with SO_LINGER 0, a burst of 6 concurrent scrapers), and requests /metrics, /, /health or an arbitrary path. Oracle: the harness's own CIDR arithmetic decides allowed/denied; denied => 403 with an empty body; allowed => 200 whose body parses under the strict exposition parser and carries the canary counter at its current value, /health => OK; every documented-syntax entry is accepted by the builder; a well-formed request after any fault is answered within the deadline. Non-trivial = a probe from a block edge (first/last/one-off address), or a request issued while a faulty connection is still open. A second lane listens on [::1] with allowlists drawn from plain IPv6 addresses, IPv6 blocks and IPv4 entries and probes from ::1. Distinct = distinct decoded cases.";
 
 static META: Metadata<'static> = Metadata::new("c18", Level::INFO, None);
 
@@ -172,7 +172,11 @@ fn connect_from(src: Ipv4Addr, port: u16) -> std::io::Result<TcpStream> {
 }
 
 fn request(src: Ipv4Addr, port: u16, path: &str, deadline: Duration) -> Result<Resp, String> {
-    let mut s = connect_from(src, port).map_err(|e| format!("harness-connect: {}", e))?;
+    let s = connect_from(src, port).map_err(|e| format!("harness-connect: {}", e))?;
+    request_on(s, path, deadline)
+}
+
+fn request_on(mut s: TcpStream, path: &str, deadline: Duration) -> Result<Resp, String> {
     s.set_read_timeout(Some(deadline)).ok();
     s.set_write_timeout(Some(deadline)).ok();
     s.write_all(format!("GET {} HTTP/1.1\r\nHost: localhost\r\nConnection: close\r\n\r\n", path).as_bytes()).map_err(|e| format!("write: {}", e))?;
@@ -335,9 +339,94 @@ fn case_scrape(bytes: &[u8], _s: &[u8], ctx: &mut Ctx) -> Result<(), Fail> {
     result
 }
 
+
+// ---------------------------------------------------------------- IPv6 listener lane
+
+const V6_ENTRIES: [&str; 16] = ["::1", "::2", "::1/128", "::2/128", "::/127", "::2/127", "::/0", "::/1", "8000::/1", "fe80::1", "2001:db8::1", "2001:db8::/32", "::ffff:127.0.0.1", "127.0.0.1", "10.0.0.0/8", "0.0.0.0/0"];
+
+/// (address, prefix length) of an IPv6 entry in the documented syntax; None for IPv4 entries.
+fn v6_net(text: &str) -> Option<(u128, u32)> {
+    let (addr, len) = match text.split_once('/') {
+        Some((a, l)) => (a, Some(l.parse::<u32>().ok()?)),
+        None => (text, None),
+    };
+    let ip: std::net::Ipv6Addr = addr.parse().ok()?;
+    Some((u128::from(ip), len.unwrap_or(128)))
+}
+
+fn case_scrape_v6(bytes: &[u8], _s: &[u8], ctx: &mut Ctx) -> Result<(), Fail> {
+    let mut src = Source::new(bytes);
+    let entries: Vec<&'static str> = (0..src.below(5)).map(|_| *src.pick(&V6_ENTRIES)).collect();
+    let paths: Vec<&'static str> = (0..1 + src.below(3)).map(|_| *src.pick(&["/metrics", "/health", "/"])).collect();
+    ctx.case(&(&entries, &paths));
+    let peer: u128 = 1; // the only IPv6 address a loopback client can have here is ::1
+    let want_allowed = entries.is_empty() || entries.iter().filter_map(|e| v6_net(e)).any(|(net, len)| len == 0 || (peer >> (128 - len.min(128))) == (net >> (128 - len.min(128))));
+    if entries.iter().any(|e| !e.contains('/') && e.contains(':')) {
+        ctx.nontrivial("plain-ipv6-entry");
+    }
+    ctx.class(if want_allowed { "probe-allowed" } else { "probe-denied" });
+    let rt = tokio::runtime::Builder::new_multi_thread().worker_threads(2).enable_all().build().map_err(|e| Fail::new("harness-runtime", e.to_string()))?;
+    let mut built = None;
+    for _ in 0..5 {
+        let port = std::net::TcpListener::bind("[::1]:0").and_then(|l| l.local_addr()).map(|a| a.port()).unwrap_or(0);
+        if port == 0 {
+            ctx.discard = true; // no IPv6 loopback in this environment
+            return Ok(());
+        }
+        let mut b = PrometheusBuilder::new().with_http_listener(SocketAddr::from((std::net::Ipv6Addr::LOCALHOST, port)));
+        for e in &entries {
+            b = match b.add_allowed_address(e) {
+                Ok(b) => b,
+                Err(err) => return Err(Fail::new("allowlist-entry-rejected", format!("add_allowed_address({:?}) failed although the entry is in the documented syntax: {}", e, err))),
+            };
+        }
+        let _g = rt.enter();
+        if let Ok((rec, fut)) = b.build() {
+            built = Some((rec, fut, port));
+            break;
+        }
+    }
+    let Some((rec, fut, port)) = built else {
+        ctx.discard = true;
+        return Ok(());
+    };
+    rt.spawn(async move {
+        let _ = fut.await;
+    });
+    rec.register_counter(&Key::from_name("canary_total"), &META).increment(3);
+    let result = (|| -> Result<(), Fail> {
+        for path in &paths {
+            let s = match TcpStream::connect(("::1", port)) {
+                Ok(s) => s,
+                Err(_) => {
+                    ctx.class("harness-could-not-connect-v6");
+                    continue;
+                }
+            };
+            let resp = request_on(s, path, Duration::from_secs(5)).map_err(|e| Fail::new("client-not-served", e))?;
+            if want_allowed {
+                ensure!(resp.status == 200, "allowed-peer-not-served", "peer ::1 lies inside {:?} (or no allowlist is set) but got status {}", entries, resp.status);
+                let body = String::from_utf8_lossy(&resp.body).to_string();
+                if *path == "/health" {
+                    ensure!(body == "OK", "health-body-wrong", "{:?}", body);
+                } else {
+                    ensure!(body.contains("canary_total 3"), "scrape-not-current-rendering", "{:?}", body);
+                }
+            } else {
+                ensure!(resp.status == 403 && resp.body.is_empty(), "denied-peer-not-403", "peer ::1 lies in none of {:?} but got status {} with {} body bytes", entries, resp.status, resp.body.len());
+            }
+        }
+        Ok(())
+    })();
+    drop(rec);
+    rt.shutdown_timeout(Duration::from_millis(200));
+    result
+}
+
 pub fn run(cfg: &RunCfg, replay: Option<&str>) -> i32 {
     let mut pr = PropRun::new("C18", cfg, RULE);
     pr.register("scrapes", &case_scrape);
+    pr.register("scrapes-ipv6", &case_scrape_v6);
     if let Some(f) = replay {
         return pr.replay(f);
     }
@@ -347,6 +436,8 @@ pub fn run(cfg: &RunCfg, replay: Option<&str>) -> i32 {
     pr.push(r);
     let c = pr.cfg.clone();
     let r = run_lane(&c, "C18", &Lane { name: "scrapes", cases: c.cases(6_000, 200_000), max_len: 200, sched_len: 0, workers: 8, f: &case_scrape });
+    pr.push(r);
+    let r = run_lane(&c, "C18", &Lane { name: "scrapes-ipv6", cases: c.cases(1_500, 50_000), max_len: 32, sched_len: 0, workers: 8, f: &case_scrape_v6 });
     pr.push(r);
     pr.finish()
 }
